@@ -257,9 +257,12 @@ Section Deinit.
                        | Some q => if String.eqb p q then [(snd (fst e), snd e)] else []
                        | None => []
                        end) T.
-  Definition final_deinit (T : table) (p : string) (tbl : ltable) : list (string * okind) :=
-    filter (fun e => match lget tbl (fst e, p) with None => true | Some _ => false end)
-           (sort_by fst (phase_syms T p)).
+  (* exit_all = true: since the repair of C12 the loop releases every local
+       for identifier, sym_kind in sorted(sym_table.items()): emit_variable_deinit(...) *)
+  Definition final_deinit (exit_all : bool) (T : table) (p : string) (tbl : ltable) : list (string * okind) :=
+    if exit_all then sort_by fst (phase_syms T p)
+    else filter (fun e => match lget tbl (fst e, p) with None => true | Some _ => false end)
+                (sort_by fst (phase_syms T p)).
 End Deinit.
 
 (* ================================================================== S5: default index variables *)
@@ -321,7 +324,7 @@ Section Pipeline.
   (* shapes of simplify_ast / create_ast_from_phase (GenC06.v, GenC05.v) *)
   Variables rev_expand guard_empty skip_false : bool.
   (* shapes of the C15 sites (GenC15.v) *)
-  Variables selfdep_sorted deinit_sorted : bool.
+  Variables selfdep_sorted deinit_sorted exit_all : bool.
   Variables py_phases_sorted py_table_sorted : bool.
 
   Variable G : Type.
@@ -355,7 +358,7 @@ Section Pipeline.
     (map (fun st => (s_id st,
                      deinit_calls is_state deinit_sorted T p tbl (s_id st)
                                   (ord3 (s_id st) (sunion (s_reads st) (s_writes st))))) ls,
-     final_deinit T p tbl).
+     final_deinit exit_all T p tbl).
 
   (* everything the Fortran generator computes before it writes text, per phase in emission order *)
   Definition pipeline_f (ord1 ord2 ord3 : string -> string -> list string -> list string)
@@ -410,7 +413,7 @@ Definition reorders (ord : string -> string -> list string -> list string) : Pro
    ArrayType do not depend on what was constructed before in the process. *)
 Definition full_statement (selfdep_sorted deinit_sorted py_phases_sorted py_table_sorted
                            index_from_counter : bool) : Prop :=
-  (forall rev_expand guard_empty skip_false (G : Type) (gen : G -> string -> string * G)
+  (forall rev_expand guard_empty skip_false exit_all (G : Type) (gen : G -> string -> string * G)
           (ginit : list string -> G) (mid : list sstmt -> list sstmt)
           (info : string -> nat -> sstmt) (is_state : string -> bool)
           D D' ord1 ord1' ord2 ord2' ord3 ord3' T T',
@@ -418,9 +421,9 @@ Definition full_statement (selfdep_sorted deinit_sorted py_phases_sorted py_tabl
      reorders ord1 -> reorders ord1' -> reorders ord2 -> reorders ord2' ->
      reorders ord3 -> reorders ord3' ->
      NoDup (map fst T) -> NoDup (map fst T') -> table_equiv T T' ->
-     pipeline_f rev_expand guard_empty skip_false selfdep_sorted deinit_sorted
+     pipeline_f rev_expand guard_empty skip_false selfdep_sorted deinit_sorted exit_all
                 G gen ginit mid info is_state ord1 ord2 ord3 T D =
-     pipeline_f rev_expand guard_empty skip_false selfdep_sorted deinit_sorted
+     pipeline_f rev_expand guard_empty skip_false selfdep_sorted deinit_sorted exit_all
                 G gen ginit mid info is_state ord1' ord2' ord3' T' D') /\
   (forall rev_expand guard_empty skip_false D D',
      wf_description D -> same_description D D' ->
